@@ -217,8 +217,13 @@ def _invoke(ws, crate, target, harnesses, features, no_default_features, jobs, h
     cmd += list(extra_args)
     env = dict(os.environ, CARGO_NET_OFFLINE="true")
     env.pop("RUSTUP_TOOLCHAIN", None)
+    def _limits():
+        import resource
+        cap = 30 * 1024 ** 3   # no single CBMC/kani process may map more than 30 GB (62 GB machine, no swap)
+        resource.setrlimit(resource.RLIMIT_AS, (cap, cap))
     try:
-        p = subprocess.run(cmd, cwd=ws, env=env, capture_output=True, text=True, timeout=total_timeout)
+        p = subprocess.run(cmd, cwd=ws, env=env, capture_output=True, text=True, timeout=total_timeout,
+                           preexec_fn=_limits)
         text = p.stdout + "\n" + p.stderr
     except subprocess.TimeoutExpired as e:
         so = e.stdout.decode(errors="replace") if isinstance(e.stdout, bytes) else (e.stdout or "")
